@@ -28,15 +28,16 @@ RULE = ('skeleton = one top-level IF-family ladder or SWITCH construct with ever
         '(IF-ladder/SWITCH x 1..3 conditional branches x default yes/no x every truth vector = 56) and exhaustive depth-2 shapes (one nested flat shape in one '
         'branch of an outer flat shape = 9184; quick tier: a seeded sample of 1500), each realised with random head kinds / selector types, (b) IFB/IFNB with every '
         'blank/non-blank pattern of 0..5 arguments, written directly and through macro parameters, (c) sampled skeletons up to depth 4 x 5 branches with '
-        'symbol definitions, SETs, references, poison statements in skipped branches, macro calls, REPT/IRP/WHILE and EXITM, a quarter of them in two-pass programs, '
+        'symbol definitions, SETs, references, poison statements in skipped branches, macro calls, REPT/IRP/WHILE and EXITM, three fifths of them in programs that need two or three passes (forward references), with IFUSED/IFNUSED probes in front of and behind the first reference and IFDEF/IFNDEF/DEFINED() probes in front of and behind the definition, '
         '(d) EXITM executed below 1..4 open constructs inside a macro/REPT/IRP/WHILE expanded below 0..2 open constructs, (e) chains of 5..250 nested constructs, '
         '(f) malformed skeletons of 18 classes in random well-formed contexts; distinct = distinct structural signature (construct kinds, branch counts, selected '
         'branches, nesting; ids and literal values ignored) resp. (malformed class, depth, context); non-trivial = the skeleton contains a construct')
 ASSUMPTIONS = ['conditions are restricted to forms whose value the manual fixes: integer literals, comparisons =,==,<>,<,<=,>,>= of integers/floats of equal type, '
                '=,==,<> of strings, &&, ||, ~~, binary & with a mask, fully parenthesised; IF/ELSEIF operands are integers in -2^31..2^32-1 (the assembler reports a range overflow beyond; the manual gives no range) and include raw non-zero values whose low 8/16 bits are zero, the sign bit and both range ends',
                'CASE values have the type of the selector; floats are exactly representable',
-               'symbols tested by IFDEF/IFNDEF are defined earlier in the source, on the command line (-D) or never; IFUSED/IFNUSED only in one-pass programs '
-               'and only on constants that are never tested by IFDEF',
+               'symbols tested by IFDEF/IFNDEF are defined earlier or later in the source (later = not defined at the probe: "the definition has to appear before IFDEF"), '
+               'on the command line (-D) or never; DEFINED() only on symbols defined earlier or never; IFUSED/IFNUSED only on constants that are never tested by IFDEF; '
+               '"defined before" / "referenced up to now" are read as functions of the source position, identical in every pass',
                'the construct depth is read through hook H6 before the assembler clears its stacks',
                'malformed classes are limited to statements for which no construct of the matching family is open anywhere (stray), a second default branch, '
                'a CASE/ELSECASE after ELSECASE, or a missing terminator; the offending statement is always in an assembled region']
@@ -50,7 +51,7 @@ MANIFEST = dict(
          'exactly the predicted branch contributed code, symbols, references and diagnostics, the construct stack was empty at the end of every pass, and every '
          'malformed skeleton (stray/duplicate/missing statements) ended with >=1 error and status 2.',
     note='Conditions are limited to expression forms with manual-defined values; statements between SWITCH and the first CASE, labels on conditional statements, '
-         'conditionals left open across the end of a macro body or include file, mixed-type CASE lists, IF values outside 32 bits, IFUSED across passes and '
+         'conditionals left open across the end of a macro body or include file, mixed-type CASE lists, IF values outside 32 bits, DEFINED() of symbols defined further down and '
          'malformed statements inside skipped blocks are not generated (manual silent).')
 REGISTERED = True
 
@@ -1107,8 +1108,10 @@ def judge2(ctx, prog, name):
     item, bkey, bw, bg = (None, None, None, None)
     # in a two-pass program the first unit is the address of the label behind the last byte: it differs whenever anything differs
     skip = cond.prologue_len(prog)
+    # an assembly that stops after pass 1 (errors) still has the short zero-page form of the forward LDA
+    skip_o = 4 if (skip == 5 and fin == 1) else skip
     if b != want:
-        item, bkey, bw, bg = blame(prog, exp, units(want[skip:]), units(b[skip:]))
+        item, bkey, bw, bg = blame(prog, exp, units(want[skip:]), units(b[skip_o:]))
     tail = '\n--- source\n%s' % (src if len(src) < 2500 else src[:1200] + '\n...\n' + src[-1200:])
     if item is not None:
         sub = []
@@ -1116,7 +1119,7 @@ def judge2(ctx, prog, name):
         viol.append(('select:' + bkey, '%s: construct %s: branches assembled %s, documented %s\n%s%s'
                      % (name, cond.kind_of(item), sorted(bg), sorted(bw), '\n'.join(sub[:40]), tail)))
     elif b != want:
-        uo, uw = units(b[skip:]), units(want[skip:])
+        uo, uw = units(b[skip_o:]), units(want[skip:])
         i = 0
         while i < min(len(uo), len(uw)) and uo[i] == uw[i]:
             i += 1
